@@ -82,12 +82,19 @@ CLAIMED = {
              "of the coordinator's replies: every JoinGroup advertises all configured strategies in order; a successful "
              "JoinGroup reply (also after MEMBER_ID_REQUIRED rounds) is followed by this member's SyncGroup for that "
              "generation and identity. The model is tied to the real method by exhaustive differential testing over "
-             "well-typed reply scripts x assignor lists x JoinGroup v0-v5. The convergence clause is decided by a monitor on "
+             "well-typed reply scripts x assignor lists x JoinGroup v0-v5. The error-dispatch chains of the Heartbeat, "
+             "JoinGroup, SyncGroup and OffsetCommit handlers are regenerated from group_coordinator.py on every run and "
+             "proved to recover (rejoin / coordinator rediscovery / generation reset / backoff, never a raise) from every "
+             "error code a Kafka coordinator can put in that reply, to rejoin on every SyncGroup error whatsoever, and to "
+             "agree with the hand model's classification; the generated chains are validated against the real handlers "
+             "for every code -1..100. The convergence clause is decided by a monitor on "
              "simulated groups with fault sequences followed by a quiet period (latest generation = live members, "
              "heartbeats continue, full coverage, no further rebalance); its model-level proof is not done (partial).",
         note="Trusted: Coq kernel; hand model tied by exhaustive differential testing with a fake coordinator object and the "
-             "real request builders; convergence is a simulator monitor in virtual time, not a theorem. No axioms.",
-        technique="Coq proofs over a function model + exhaustive differential testing; simulation monitor for convergence",
+             "real request builders; dispatch2gallina translator (validated per run); the per-API error-code sets of a Kafka "
+             "coordinator (model/C06_Codes.v, hand-written); convergence is a simulator monitor in virtual time, not a "
+             "theorem. No axioms.",
+        technique="Coq proofs over a function model and over dispatch chains translated from source + exhaustive differential testing; simulation monitor for convergence",
         design="5/C06"),
     "C19": dict(
         text="Machine-checked proof (Coq 8.16) over the control skeleton of stop(): the final commit's retry loop makes exactly "
